@@ -1,4 +1,4 @@
-import OASProofs.Lemmas.Kernel
+import OASProofs.Lemmas.System
 
 /-!
   Re-numbering of the unknowns of the assembled vortex-lattice system when the list of surfaces is permuted:
@@ -10,15 +10,6 @@ set_option linter.unusedSimpArgs false
 namespace OAS
 namespace VLM
 open Finset
-
-theorem locate_isSome_iff (l : List (Surf ℝ)) (m : ℕ) : (locate l m).isSome ↔ m < totalPanels l := by
-  induction l generalizing m with
-  | nil => simp [locate, totalPanels]
-  | cons s rest ih =>
-    simp only [locate, totalPanels, List.map_cons, List.sum_cons]
-    split_ifs with h
-    · simp; omega
-    · rw [ih]; simp only [totalPanels]; omega
 
 /-- a panel in chordwise row `i ≥ 1` has a global index of at least one row length -/
 theorem locate_row_pos (l : List (Surf ℝ)) (m : ℕ) (s : Surf ℝ) (i j : ℕ) (hl : locate l m = some (s, i, j))
